@@ -343,10 +343,325 @@ def _syms(v):
     return [x for x in walk(v) if isinstance(x, Sym)]
 
 
+# -- R-EQ-5: attributes read by the comparison exist ----------------------------
+
+def _init_fields(prog, ci):
+    """names assigned on self by the constructor chain of `ci` (over-
+    approximation: any `self.X = ..` in a constructor that can run);
+    None when the chain leaves the package or sets attributes dynamically"""
+    import ast
+    out = set()
+    seen = set()
+
+    def visit(cls_from, start):
+        # first __init__ at or after position `start` of ci.mro
+        for c in ci.mro[start:]:
+            if not isinstance(c, ClassInfo):
+                return c.short() == 'object'
+            if '__init__' in c.attrs:
+                break
+        else:
+            return True
+        f = c.attrs['__init__']
+        return body(f, c)
+
+    def body(f, c):
+        if not isinstance(f, ast.FunctionDef) or not f.args.args:
+            return False
+        if id(f) in seen:
+            return True
+        seen.add(id(f))
+        me = f.args.args[0].arg
+        ok = True
+        for n in ast.walk(f):
+            if isinstance(n, ast.Call) and \
+                    isinstance(n.func, ast.Attribute) and \
+                    isinstance(n.func.value, ast.Name) and \
+                    n.func.value.id == me and n.func.attr != '__init__':
+                # self.helper(..): a method of the object under construction
+                r = ci.lookup(n.func.attr)
+                if r is not None and isinstance(r[1], ast.FunctionDef):
+                    ok = body(r[1], r[0]) and ok
+                continue
+            if isinstance(n, ast.Attribute) and isinstance(n.ctx, ast.Store) \
+                    and isinstance(n.value, ast.Name) and n.value.id == me:
+                out.add(n.attr)
+            elif isinstance(n, ast.Call):
+                fn = n.func
+                if isinstance(fn, ast.Name) and fn.id in ('setattr', 'vars'):
+                    ok = False
+                if isinstance(fn, ast.Attribute) and fn.attr == '__dict__':
+                    ok = False
+                if isinstance(fn, ast.Attribute) and fn.attr == '__init__':
+                    b = fn.value
+                    if isinstance(b, ast.Call) and \
+                            isinstance(b.func, ast.Name) and \
+                            b.func.id == 'super':
+                        # super(X, self).__init__ / super().__init__
+                        frm = c
+                        if b.args:
+                            x = prog.eval_static(c.module, b.args[0])
+                            if isinstance(x, ClassInfo) and x in ci.mro:
+                                frm = x
+                            else:
+                                ok = False
+                                continue
+                        ok = visit(frm, ci.mro.index(frm) + 1) and ok
+                    else:
+                        x = prog.eval_static(c.module, b)
+                        if isinstance(x, ClassInfo) and x in ci.mro:
+                            ok = visit(x, ci.mro.index(x)) and ok
+                        else:
+                            ok = False
+            elif isinstance(n, ast.Attribute) and n.attr == '__dict__':
+                ok = False
+        return ok
+    if not visit(None, 0):
+        return None
+    return out
+
+
+def _has_attr(prog, ci, name, cache={}):
+    """True / False / None (unknown): an instance of ci has attribute name"""
+    for c in ci.mro:
+        if not isinstance(c, ClassInfo):
+            if c.short() != 'object':
+                return None
+            continue
+        if name in c.attrs:
+            return True
+        if '__getattr__' in c.attrs or '__getattribute__' in c.attrs or \
+                '__slots__' in c.attrs:
+            return None
+        import ast
+        for st in c.node.body:
+            if not isinstance(st, (ast.FunctionDef, ast.Assign, ast.Expr,
+                                   ast.Pass)):
+                return None       # class body with control flow / decorators
+    k = (id(prog), ci.qn)
+    if k not in cache:
+        cache[k] = _init_fields(prog, ci)
+    flds = cache[k]
+    if flds is None:
+        return None
+    # attributes set on self by other methods count as present (lazily
+    # created state is not this rule's business)
+    import ast
+    for c in ci.mro:
+        if isinstance(c, ClassInfo):
+            for n in ast.walk(c.node):
+                if isinstance(n, ast.Attribute) and n.attr == name and \
+                        isinstance(n.ctx, ast.Store) and \
+                        not (isinstance(n.value, ast.Name) and
+                             n.value.id == 'self' and False):
+                    if name not in flds:
+                        # stored somewhere else than the constructor chain
+                        # of this class: only the constructors of its own
+                        # MRO decide; a store outside them -> unknown
+                        owner_init = any(
+                            isinstance(cc, ClassInfo) and
+                            isinstance(cc.attrs.get('__init__'),
+                                       ast.FunctionDef) and
+                            any(m is n for m in ast.walk(
+                                cc.attrs['__init__']))
+                            for cc in ci.mro)
+                        if not owner_init:
+                            return None
+    return name in flds
+
+
+def _guarded_other_reads(fnode):
+    """[(attr, guard expr | None, node)] for loads `other.attr` in a
+    comparison method; guard = the class expression C of the enclosing
+    `isinstance(other, C)` test (if / conditional expression / `and` chain /
+    early exit `if not isinstance(other, C): return ..`); reads inside a try
+    block or under any other condition on `other` are left out"""
+    import ast
+    if len(fnode.args.args) < 2:
+        return []
+    other = fnode.args.args[1].arg
+    out = []
+
+    def isinst(test):
+        """class expr when `test` (or a conjunct of it) is
+        isinstance(other, C)"""
+        if isinstance(test, ast.Call) and isinstance(test.func, ast.Name) \
+                and test.func.id == 'isinstance' and len(test.args) == 2 and \
+                isinstance(test.args[0], ast.Name) and \
+                test.args[0].id == other and not test.keywords:
+            return test.args[1]
+        if isinstance(test, ast.BoolOp) and isinstance(test.op, ast.And):
+            for v in test.values:
+                c = isinst(v)
+                if c is not None:
+                    return c
+        return None
+
+    def neg_isinst(test):
+        if isinstance(test, ast.UnaryOp) and isinstance(test.op, ast.Not):
+            t = test.operand
+            if isinstance(t, ast.Call):
+                return isinst(t)
+        return None
+
+    def leaves(block):
+        return bool(block) and isinstance(block[-1], (ast.Return, ast.Raise))
+
+    def expr(e, guard):
+        if e is None:
+            return
+        if isinstance(e, ast.IfExp):
+            expr(e.test, guard)
+            c = isinst(e.test)
+            expr(e.body, c if c is not None else guard)
+            expr(e.orelse, guard if c is None else None)
+            return
+        if isinstance(e, ast.BoolOp) and isinstance(e.op, ast.And):
+            g = guard
+            for v in e.values:
+                expr(v, g)
+                c = isinst(v)
+                if c is not None:
+                    g = c
+            return
+        if isinstance(e, ast.Attribute) and isinstance(e.ctx, ast.Load) and \
+                isinstance(e.value, ast.Name) and e.value.id == other:
+            out.append((e.attr, guard, e))
+            return
+        if isinstance(e, (ast.Lambda, ast.ListComp, ast.SetComp,
+                          ast.DictComp, ast.GeneratorExp)):
+            return
+        for ch in ast.iter_child_nodes(e):
+            if isinstance(ch, ast.expr):
+                expr(ch, guard)
+
+    def block(stmts, guard):
+        g = guard
+        for st in stmts:
+            if isinstance(st, ast.If):
+                expr(st.test, g)
+                c = isinst(st.test)
+                nc = neg_isinst(st.test)
+                block(st.body, c if c is not None else
+                      (g if nc is None else None))
+                block(st.orelse, nc if nc is not None else
+                      (g if c is None else None))
+                if nc is not None and leaves(st.body) and not st.orelse:
+                    g = nc
+                continue
+            if isinstance(st, (ast.Return, ast.Expr, ast.Assign,
+                               ast.AugAssign)):
+                for ch in ast.iter_child_nodes(st):
+                    if isinstance(ch, ast.expr):
+                        expr(ch, g)
+                if isinstance(st, ast.Assign) and any(
+                        isinstance(t, ast.Name) and t.id == other
+                        for t in st.targets):
+                    g = None
+                    return          # other is rebound: stop
+                continue
+            if isinstance(st, ast.Raise):
+                continue
+            # loops, try, with, ...: not followed (no claim about reads there)
+            return
+    block(fnode.body, None)
+    return [(a, g, n) for (a, g, n) in out if g is not None]
+
+
+def rule_eq5(prog):
+    r = RuleResult('R-EQ-5', 'every attribute that __eq__ / __ne__ reads on '
+                   'the other operand under isinstance(other, C) exists on '
+                   'the instances of every formula class that C admits and '
+                   'that can reach this method as the right operand')
+    import ast
+    base = prog.cls('language.Formula')
+    classes = sorted([c for c in prog.classes.values()
+                      if c.is_subclass_of(base)], key=lambda c: c.qn)
+    for mname in ('__eq__', '__ne__'):
+        by_f = {}
+        for L in classes:
+            f = prog.method(L, mname)
+            if f is not None:
+                by_f.setdefault(f, []).append(L)
+        for f, Ls in sorted(by_f.items(), key=lambda kv: kv[0].qn):
+            reads = _guarded_other_reads(f.node)
+            r.inst(method=f.short(), receivers=len(Ls),
+                   guarded_reads=sorted(set(
+                       '%s under isinstance(other, %s)' % (a, ast.unparse(g))
+                       for (a, g, n) in reads)))
+            if not reads:
+                r.ok()
+                continue
+            bad = None
+            for (a, g, n) in reads:
+                gs = g.elts if isinstance(g, ast.Tuple) else [g]
+                admitted = []
+                for ge in gs:
+                    C = prog.eval_static(f.module, ge)
+                    if isinstance(C, ClassInfo):
+                        admitted += [S for S in classes
+                                     if S.is_subclass_of(C)]
+                for S in admitted:
+                    if _has_attr(prog, S, a) is not False:
+                        continue
+                    # the left operand whose method this is: python asks the
+                    # right operand first only when its class is a proper
+                    # subclass of the left one's and overrides the method
+                    for L in Ls:
+                        refl = S is not L and S.is_subclass_of(L) and \
+                            prog.method(S, mname) is not f
+                        if not refl:
+                            bad = (a, S, L, n)
+                            break
+                    if bad:
+                        break
+                if bad:
+                    break
+            if bad is None:
+                r.ok()
+            else:
+                a, S, L, n = bad
+                r.fail(Finding(
+                    PROP, 'R-EQ-5', '%s:%d' % (f.module.relpath, n.lineno),
+                    f.short(), 'missing-attr:%s:%s' % (f.short(), a),
+                    '%s reads other.%s under an isinstance test that admits '
+                    '%s, whose instances have no attribute %s (its '
+                    'constructor chain never sets it): %s(..) == %s(..) '
+                    'raises AttributeError instead of answering False' % (
+                        f.short(), a, S.short(), a, L.short(), S.short()),
+                    expected='== answers for every pair of formulas',
+                    found='AttributeError'), witness=(S.short(), L.short()))
+    floor('R-EQ-5', 'comparison methods', len(r.instances), 2)
+    # matcher self-test (the expected number of findings is zero)
+    pos = ast.parse(
+        'def __eq__(self, o):\n'
+        '    if isinstance(o, A):\n'
+        '        return self.n == o.n\n'
+        '    if not isinstance(o, B):\n'
+        '        return False\n'
+        '    return (o.m if isinstance(o, C) else 0) == o.k\n').body[0]
+    neg = ast.parse(
+        'def __eq__(self, o):\n'
+        '    try:\n'
+        '        return self.n == o.n\n'
+        '    except AttributeError:\n'
+        '        return str(self) == str(o)\n').body[0]
+    got = sorted((a, ast.unparse(g)) for (a, g, n) in
+                 _guarded_other_reads(pos))
+    if got != [('k', 'B'), ('m', 'C'), ('n', 'A')] or \
+            _guarded_other_reads(neg):
+        raise Inconclusive('R-EQ-5', 'matcher self-test failed: %r' % (got,),
+                           '')
+    r.notes.append('matcher self-test: guarded reads of the positive '
+                   'example found, reads under try left out')
+    return r
+
+
 def run(prog, tier, seed):
     T = Attempts()
     r3 = T(c09.rule_rt4, prog, PROP, 'R-EQ-3')
-    results = T.results(T(rule_eq1, prog), T(rule_eq2, prog), r3)
+    results = T.results(T(rule_eq1, prog), T(rule_eq2, prog), r3,
+                        T(rule_eq5, prog))
     expl = ('For every class of the formula lattice the MRO-resolved __eq__ '
             'and __hash__ are interpreted abstractly: both exist (no class '
             'defines __eq__ without __hash__ at or below it), equality is '
